@@ -171,7 +171,7 @@ class RecordReducer(Reducer, ABC):
         if value != self.__duration:
             for rec in self.__records:
                 getattr(self, rec).duration = value
-            self.__step_time = value
+            self.__duration = value
 
     @property
     def inplace(self) -> bool:
